@@ -34,6 +34,7 @@ ABC = "repid.connections.abc"
 
 def run(ctx: Ctx) -> None:
     protocol(ctx)
+    wrapped_only(ctx)
     context(ctx)
     table(ctx)
     isolate(ctx)
@@ -363,6 +364,21 @@ def isolate(ctx: Ctx, rule="R-C17-ISOLATE") -> None:
               f"emit_signal calls {unparse(gat[0])[:100] if gat else 'nothing'}", instance="emit_signal calls wrappers")
     aws = [n for n in ast.walk(e.node) if isinstance(n, ast.Await) and gat and n.value is gat[0]]
     ctx.check(bool(aws), rule, e, "emit_signal awaits the subscribers", "awaited", "emit_signal does not await the subscribers", instance="emit_signal awaited")
+
+
+def wrapped_only(ctx: Ctx, rule="R-C17-PROTOCOL") -> None:
+    """The unwrapped implementation `_actor_run` is only ever handed to middleware_wrapper; everybody calls the wrapped `actor_run` - a 'fast path' around the wrapper
+    also skips the nesting flag, so operations performed inside the actor emit signals of their own."""
+    n = 0
+    for fn in ctx.prog.iter_functions():
+        for a in ast.walk(fn.node):
+            if isinstance(a, ast.Attribute) and a.attr == "_actor_run" and isinstance(a.ctx, ast.Load):
+                n += 1
+                par_ok = fn.qualname == f"{C.PROCESSOR}.__init__"
+                ctx.check(par_ok, rule, fn, f"{unparse(a)} referenced in {fn.short()}", "only wrapped in __init__",
+                          f"{fn.short()} uses the unwrapped {unparse(a)} directly: that execution emits no actor_run signals and is not marked as 'inside middleware', so operations "
+                          "performed by the actor (enqueue, ack ...) emit their own before_/after_ signals", node=a, instance=f"_actor_run used in {fn.short()}")
+    ctx.floor(rule, n, 1, "references of _actor_run")
 
 
 def emitter_own(ctx: Ctx, rule="R-C17-EMITTER-OWN") -> None:
